@@ -111,3 +111,9 @@ Proof.
   intros jb. unfold gen_is_job_next_operation_free, is_job_next_operation_free.
   destruct (existsb (is_ostate OProc) (j_ops jb)); simpl; [reflexivity|]. destruct (existsb (is_ostate OIdle) (j_ops jb)); reflexivity.
 Qed.
+
+(* job_type_utils.get_next_not_done_operation / get_next_idle_operation / get_processing_operation find the records the model's
+   first_not_done / first_idle / first_proc index *)
+Theorem gen_first_ops_eq : forall jb,
+  gen_first_not_done jb = first_not_done jb /\ gen_first_idle jb = first_idle jb /\ gen_first_proc jb = first_proc jb.
+Proof. intros jb. repeat split; reflexivity. Qed.
